@@ -180,3 +180,13 @@ Theorem C12_sqrt_rel_partial : forall x, normalised x -> (0 < B2R (mnt x))%R -> 
   (Rabs (rval (rdpe_sqrt x) - sqrt (rval x)) <= bpow radix2 (-53) * Rabs (sqrt (rval x)))%R.
 Proof. exact sqrt_rel_even. Qed.
 Print Assumptions C12_sqrt_rel_partial.
+
+(* cdpe_div_eq (rc, c) as it was multiplies conj(c)/|c|^2 by c instead of rc: 2 / 4 = 1.
+   Repaired by fixes/C12_cdpe_div_eq.patch (the model's cdpe_div_eq is cdpe_div). *)
+Theorem C12_cdpe_div_eq_unfixed_refuted :
+  let two := Cdpe (Rdpe fhalf 2) rdpe_zero in
+  let four := Cdpe (Rdpe fhalf 3) rdpe_zero in
+  (esp (cre (cdpe_div_eq_old two four)) = 1 /\ to_bits (mnt (cre (cdpe_div_eq_old two four))) = to_bits fhalf) /\
+  (esp (cre (cdpe_div_eq two four)) = 0 /\ to_bits (mnt (cre (cdpe_div_eq two four))) = to_bits fhalf).
+Proof. exact cdpe_div_eq_unfixed_refuted. Qed.
+Print Assumptions C12_cdpe_div_eq_unfixed_refuted.
